@@ -72,3 +72,55 @@ def opt_eq(a, b):
     x, y = a[3][0], b[3][0]
     sx = x[3][0] if isinstance(x, tuple) else x; sy = y[3][0] if isinstance(y, tuple) else y
     return sx == sy
+
+
+class SymParser:
+    """a GenericParser state with n expected claims (enumerated, distinct keys) and m user validators (distinct keys)"""
+    def __init__(self, w, n=2, m=2, tag=''):
+        self.w = w
+        self.keys = [String('ek%d%s' % (i, tag)) for i in range(n)]; self.exp = [Const('ev%d%s' % (i, tag), JV) for i in range(n)]
+        self.vkeys = [String('vk%d%s' % (j, tag)) for j in range(m)]
+        self.F = String('p_footer' + tag); self.A = String('p_assertion' + tag)
+        P = K(S, False); V = K(S, JV.Null)
+        for k, e in zip(self.keys, self.exp):
+            P = Store(P, k, True); V = Store(V, k, um.mk_obj(Store(K(S, False), k, True), Store(K(S, JV.Null), k, e)))    # to_value(expected claim) = {k: e}
+        self.P, self.V = P, V
+        VP = K(S, False)
+        for k in self.vkeys: VP = Store(VP, k, True)
+        self.VP = VP
+        self.assume = ([Distinct(*self.keys)] if n > 1 else []) + ([Distinct(*self.vkeys)] if m > 1 else [])
+
+    def value(self):
+        w = self.w
+        return w.mk('GenericParser', version=PHANTOM, purpose=PHANTOM, claims=('hmap', self.P, self.V, tuple(self.keys)),
+                    claim_validators=('vmap', self.VP, tuple((k, ('boxed', ('user_validator', j))) for j, k in enumerate(self.vkeys))),
+                    footer=adt('Footer', None, self.F), implicit_assertion=adt('ImplicitAssertion', None, self.A))
+
+    def prelude_value(self):
+        return self.w.mk('PasetoParser', version=PHANTOM, purpose=PHANTOM, parser=self.value())
+
+    def has_validator(self, k): return Or(*[k == v for v in self.vkeys]) if self.vkeys else BoolVal(False)
+
+    def unchanged(self, st, cell, prelude=False):
+        """frame condition: the parser state after the call equals the state before (claims, validators, footer, assertion)"""
+        v = st.store[cell]
+        if prelude: v = dict(zip(self.w.fields('PasetoParser'), v[3]))['parser']
+        g = dict(zip(self.w.fields('GenericParser'), v[3])); kq = String('k_frame')
+        same_validators = len(g['claim_validators'][2]) == len(self.vkeys) and all(a[0].eq(b) for a, b in zip(g['claim_validators'][2], self.vkeys))
+        return And(Select(g['claims'][1], kq) == Select(self.P, kq), Select(g['claims'][2], kq) == Select(self.V, kq), Select(g['claim_validators'][1], kq) == Select(self.VP, kq),
+                   BoolVal(same_validators), as_str_field(g['footer']) == self.F, as_str_field(g['implicit_assertion']) == self.A), kq
+
+
+def as_str_field(v):
+    return v[3][0] if isinstance(v, tuple) and v[0] == 'adt' else v
+
+
+def parse_fn(w, proto, prelude=False):
+    vt = w.type_text(proto); file = PP if prelude else GP
+    fs = [g for g in w.fns if g.file == file and g.method == 'parse' and g.impl and vt[0].split('::')[-1] in g.impl[1] and vt[1].split('::')[-1] in g.impl[1]]
+    if len(fs) != 1: raise Unsupported('%s::<%s>::parse: %d bodies' % ('PasetoParser' if prelude else 'GenericParser', proto, len(fs)))
+    return fs[0]
+
+
+def parser_key(w, proto, Kb):
+    return sym_key_value(w, proto, Kb) if PROTOCOLS[proto]['p'] == 'Local' else w.mk('PasetoAsymmetricPublicKey', version=PHANTOM, purpose=PHANTOM, key=Kb)
